@@ -41,4 +41,14 @@ SPEC = {
 
 
 def run(chk, replay=None):
+    # standard.run_standard looks only at the first 20 disagreeing cases; the known finding F4
+    # produces ~60 of them per run, which would hide any other violation.  Put the cases that
+    # are NOT the known finding first.
+    orig = chk.coq_eval
+
+    def coq_eval_known_last(header, cases, **kw):
+        bad, errors = orig(header, cases, **kw)
+        bad.sort(key=lambda bc: 1 if known_key(bc[0]) else 0)
+        return bad, errors
+    chk.coq_eval = coq_eval_known_last
     return standard.run_standard(chk, SPEC, replay)
